@@ -254,3 +254,35 @@ Section Handle.
         end
     end.
 End Handle.
+
+(* ---------- histories: option changes interleaved with requests ---------- *)
+
+(* SetPassword opt fresh: the web_password option is set to opt; fresh is the value
+   secrets.token_hex(16) would produce (used only when opt is empty).  Request q: one request. *)
+Inductive step := SetPassword (opt fresh : bytes) | Request (q : request).
+
+Section History.
+  Variable St D : Type.
+  Variable inner : nat -> meth -> St -> request -> St * (N * D).
+  Variable argon2_verify : bytes -> bytes -> bool.
+  Variable hash_ok : bytes -> bool.     (* argon2.extract_parameters accepts the hash *)
+  Variable a : app.
+
+  (* WebAuth.configure for web_password: an invalid hash raises OptionsError before
+     _password is assigned (and the option is rolled back) *)
+  Definition configure (stored opt fresh : bytes) : bytes :=
+    match opt with
+    | c :: _ => if byte_eqb c x_dollar then (if hash_ok opt then opt else stored) else opt
+    | [] => fresh
+    end.
+
+  (* the only WebAuth state is _password; is_valid_password does not write anything *)
+  Fixpoint run_history (stored : bytes) (s : St) (h : list step) : list (response D) :=
+    match h with
+    | [] => []
+    | SetPassword opt fresh :: r => run_history (configure stored opt fresh) s r
+    | Request q :: r =>
+        let out := handle St D inner argon2_verify stored a s q in
+        snd out :: run_history stored (fst out) r
+    end.
+End History.
